@@ -128,11 +128,22 @@ func resolveArgs(env *stateEnv, c *contractDef, m *abi.Method, actorIdx int, dom
 	for _, i := range derived {
 		for _, x := range doms[i] {
 			if x.L == labels[i] {
-				ctx.Args[i] = x.F(ctx)
+				ctx.Args[i] = derive(x, ctx)
 			}
 		}
 	}
 	return ctx.Args
+}
+
+// derive computes a signature-like value from the call's other arguments; when these are such that the repository's
+// message builders cannot produce a message at all, the value degenerates to a marker string.
+func derive(x val, ctx *callCtx) (out interface{}) {
+	defer func() {
+		if r := recover(); r != nil {
+			out = fmt.Sprintf("unsignable: %v", r)
+		}
+	}()
+	return x.F(ctx)
 }
 
 type domKey struct {
